@@ -1369,10 +1369,12 @@ def transpiler_pairs():
     pairs = {}
     missing = []
 
-    def reg(name, mk_hat, mk, rejects=False):
+    def reg(name, mk_hat, mk, rejects=False, eps=0.0):
+        """eps: the documented `epsilon` of the circuit transpiler (angle window inside which it may replace / drop a
+        rotation); 0 for transpilers documented as exact"""
         try:  # a renamed / removed class must not crash the check: it is reported and the pair is left out
             mk_hat(), mk()
-            pairs[name] = (mk_hat, mk, rejects)
+            pairs[name] = (mk_hat, mk, rejects, eps)
         except AttributeError as e:
             missing.append(f"{name}: {e}")
 
@@ -1380,8 +1382,8 @@ def transpiler_pairs():
     reg("ry", lambda: T.ParametricRY2RZHTranspiler(), lambda: T.RY2RZHTranspiler())
     reg("pauli", lambda: T.ParametricPauliRotationDecomposeTranspiler(), lambda: T.PauliRotationDecomposeTranspiler())
 
-    def wrap(name, mk, rejects=False):
-        reg("w." + name, (lambda mk=mk: P(mk())), mk, rejects)
+    def wrap(name, mk, rejects=False, eps=0.0):
+        reg("w." + name, (lambda mk=mk: P(mk())), mk, rejects, eps)
 
     wrap("rx2rzh", lambda: T.RX2RZHTranspiler())
     wrap("ry2rzh", lambda: T.RY2RZHTranspiler())
@@ -1409,11 +1411,30 @@ def transpiler_pairs():
     wrap("rot(RY,RZ)", lambda: T.RotationConversionTranspiler(["RY", "RZ"], ["H"]), True)
     wrap("rot(RX)", lambda: T.RotationConversionTranspiler(["RX"]), True)
     for gs in GATESETS:
-        wrap("gateset(" + ",".join(gs) + ")", lambda gs=gs: T.GateSetConversionTranspiler(gs), True)
-    wrap("gateset(RX,CNOT)", lambda: T.GateSetConversionTranspiler(["RX", "CNOT"]), True)  # not universal here: may reject
-    wrap("gateset(H,RZ,CNOT;validation=False)", lambda: T.GateSetConversionTranspiler(["H", "RZ", "CNOT"], 1.0e-9, False))
+        wrap("gateset(" + ",".join(gs) + ")", lambda gs=gs: T.GateSetConversionTranspiler(gs), True, 1.0e-9)
+    wrap("gateset(RX,CNOT)", lambda: T.GateSetConversionTranspiler(["RX", "CNOT"]), True, 1.0e-9)  # not universal: may reject
+    wrap("gateset(H,RZ,CNOT;validation=False)", lambda: T.GateSetConversionTranspiler(["H", "RZ", "CNOT"], 1.0e-9, False), False, 1.0e-9)
     wrap("gateset(RX,RY,RZ,CZ;epsilon=,validation=)", lambda: T.GateSetConversionTranspiler(
-        {"RX", "RY", "RZ", "CZ"}, epsilon=1.0e-10, validation=True), True)
+        {"RX", "RY", "RZ", "CZ"}, epsilon=1.0e-10, validation=True), True, 1.0e-10)
+    # transpilers that replace / drop a rotation whose angle is within their documented epsilon (default 1e-9) of a special
+    # angle — alone and inside the preset pipelines, with default and explicit epsilon
+    wrap("rot2named", lambda: T.Rotation2NamedTranspiler(), False, 1.0e-9)
+    wrap("rot2named(1e-6)", lambda: T.Rotation2NamedTranspiler(1.0e-6), False, 1.0e-6)
+    wrap("rot2named(epsilon=1e-12)", lambda: T.Rotation2NamedTranspiler(epsilon=1.0e-12), False, 1.0e-12)
+    wrap("rx2named", lambda: T.RX2NamedTranspiler(), False, 1.0e-9)
+    wrap("ry2named", lambda: T.RY2NamedTranspiler(), False, 1.0e-9)
+    wrap("rz2named", lambda: T.RZ2NamedTranspiler(), False, 1.0e-9)
+    wrap("rz2named(1e-7,noT)", lambda: T.RZ2NamedTranspiler(1.0e-7, allow_t_tdag=False), False, 1.0e-7)
+    wrap("zeroElim", lambda: T.ZeroRotationEliminationTranspiler(), False, 1.0e-9)
+    wrap("zeroElim(1e-6)", lambda: T.ZeroRotationEliminationTranspiler(epsilon=1.0e-6), False, 1.0e-6)
+    wrap("normalize", lambda: T.NormalizeRotationTranspiler())
+    wrap("cliffRZ", lambda: T.CliffordRZSetTranspiler(), False, 1.0e-9)
+    wrap("cliffRZ(1e-7)", lambda: T.CliffordRZSetTranspiler(1.0e-7), False, 1.0e-7)
+    wrap("STARSet", lambda: T.STARSetTranspiler(), True, 1.0e-9)
+    wrap("gateset(H,S,T,RZ,CNOT;epsilon=1e-6)", lambda: T.GateSetConversionTranspiler(
+        ("H", "S", "T", "RZ", "CNOT"), epsilon=1.0e-6), True, 1.0e-6)
+    wrap("gateset(X,Y,Z,SqrtX,SqrtY,S,RZ,CZ)", lambda: T.GateSetConversionTranspiler(
+        ["X", "Y", "Z", "SqrtX", "SqrtY", "S", "RZ", "CZ"]), True, 1.0e-9)
     return pairs, missing
 
 
@@ -1447,6 +1468,66 @@ def gate_functions(real, c):
         else:
             out.append({repr(real.pid(f)): Fraction(1)})
     return out
+
+
+ROUNDED = [1.5708, 1.570796, 3.1416, 3.14159, 3.141593, 0.7854, 0.785398, 2.3562, 2.356194, 4.7124, 4.712389, 3.927, 3.926991,
+           5.4978, 5.497787, 6.2832, 6.283185, -1.5708, -3.14159, -0.7854, 7.854, 7.853982, 9.42478]
+
+
+def op_dist(a, b):
+    """spectral norm of a − e^{iφ}·b for the phase φ that aligns the two operators"""
+    import numpy as np
+
+    a, b = np.asarray(a), np.asarray(b)
+    t = np.trace(b.conj().T @ a)
+    ph = t / abs(t) if abs(t) > 1e-12 else 1.0
+    return float(np.linalg.norm(a - ph * b, 2))
+
+
+def steer_near_special(real, c, ip, vals, rng, eps_floor):
+    """changes ONE parameter value so that the linear function of one parametric gate evaluates to an angle that is close
+    to — but not at — a multiple of π/4 (RZ, Pauli rotation) or π/2 (RX, RY): offset log-uniform in max(1e-7, 3·epsilon) … 3e-5
+    (absolute) or 1e-7 … 1e-5 relative to the special angle, or a hand-rounded constant (1.5708, 3.14159, …).
+    Returns (vals, description) or (vals, None) when no gate can be steered."""
+    try:
+        mp = c.param_mapping.mapping
+        pgs = [(g, p) for g, p in c.primitive_circuit().gates_and_params if p is not None]
+        rng.shuffle(pgs)
+        for g, p in pgs:
+            f = mp[p]
+            terms = list(f.items()) if hasattr(f, "items") else [(f, 1.0)]
+            steerable = [(q, float(x)) for q, x in terms if q != real.CONST and float(x) != 0.0 and any(q == r_ for r_ in ip)]
+            if not steerable:
+                continue
+            q, coef = rng.choice(steerable)
+            pos = [i for i, r_ in enumerate(ip) if r_ == q]
+            cur = sum(float(x) * (1.0 if r_ == real.CONST else vals[[i for i, z in enumerate(ip) if z == r_][-1]]) for r_, x in terms)
+            rest = cur - coef * vals[pos[-1]]
+            unit = math.pi / 4 if g.name in ("ParametricRZ", "ParametricPauliRotation") else math.pi / 2
+            k = rng.choice([j for j in range(-9, 14) if j != 0] + [0])
+            base = k * unit
+            x = rng.random()
+            if x < 0.2:
+                target, how = rng.choice(ROUNDED), "hand-rounded constant"
+            else:
+                lo = max(1.0e-7, 3.0 * eps_floor)
+                if x < 0.75 or k == 0:
+                    off = math.exp(rng.uniform(math.log(lo), math.log(max(3.0e-5, 2 * lo))))
+                    how = "absolute offset"
+                else:
+                    off = abs(base) * math.exp(rng.uniform(math.log(1.0e-7), math.log(1.0e-5)))
+                    how = "relative offset"
+                off = off if rng.random() < 0.5 else -off
+                target = base + off
+            v = (target - rest) / coef
+            out = list(vals)
+            for i in pos:
+                out[i] = v
+            return out, f"{g.name} on {list(g.target_indices)} steered to the angle {target!r} ({how}; nearest special angle " \
+                        f"{round(target / unit)}·π/{4 if unit < 1 else 2}, off by {target - round(target / unit) * unit:.3g})"
+    except Exception:  # noqa: BLE001 — the search just falls back to generic values
+        pass
+    return vals, None
 
 
 def oracle_transpile(ctx: Ctx, budget_s: float, min_cases: int):
@@ -1487,7 +1568,17 @@ def oracle_transpile(ctx: Ctx, budget_s: float, min_cases: int):
         h = rng.choice(cands)
         c = real.circs[h]
         core = [x for x in ("rx", "ry", "pauli") if x in pairs] or names
-        chosen = [rng.choice(core) if rng.random() < 0.3 else rng.choice(names) for _ in range(rng.choice([1, 1, 2, 3]))]
+        eps_names = [x for x in names if pairs[x][3] > 0]
+        near = bool(eps_names) and rng.random() < 0.4
+        if near:
+            # values near special angles × transpilers that carry an epsilon (alone, or after one of the rewriting ones)
+            chosen = [rng.choice(eps_names)]
+            if rng.random() < 0.35:
+                chosen.insert(0, rng.choice(core + [x for x in ("w.fuse", "w.normalize", "w.rz2rxry", "w.rx2ryrz") if x in pairs]))
+            if rng.random() < 0.15:
+                chosen.append(rng.choice(names))
+        else:
+            chosen = [rng.choice(core) if rng.random() < 0.3 else rng.choice(names) for _ in range(rng.choice([1, 1, 2, 3]))]
         pts = [get(x)[0] for x in chosen]
         nest = rng.randrange(3)
         if len(pts) == 1 and nest == 0:
@@ -1558,6 +1649,12 @@ def oracle_transpile(ctx: Ctx, budget_s: float, min_cases: int):
             # a repeated entry of in_params (known finding): the same value for the same parameter
             byp = {}
             vals = [byp.setdefault(repr(real.pid(p_)), v) for p_, v in zip(ip, vals)]
+        eps_total = sum(pairs[x][3] for x in chosen)
+        if near or (eps_total > 0 and rng.random() < 0.3):
+            vals, steered = steer_near_special(real, c, ip, vals, rng, max(pairs[x][3] for x in chosen))
+            if steered:
+                hist = dict(hist, near_special=steered)
+                ctx.count("oracle_transpilers", "near-special-angle")
         try:
             a = (tc.freeze() if rng.random() < 0.3 else tc).bind_parameters(vals)
             b0 = c.bind_parameters(vals)
@@ -1575,9 +1672,38 @@ def oracle_transpile(ctx: Ctx, budget_s: float, min_cases: int):
             if not may_reject:
                 ctx.witness("transpile-bind-raises:" + chosen[0], f"{type(e).__name__}: {e}", dict(hist, values=vals))
                 continue
-        worst = max(worst, d)
-        if d > 1e-7:
-            ctx.witness("transpile-bind:" + "+".join(chosen), f"bind∘T̂ and T∘bind differ by {d:.3g} up to phase", dict(hist, values=vals))
+        # a transpiler with a documented epsilon may move each rotation it meets by less than epsilon (operator distance
+        # < epsilon/2 per replacement); nothing else is allowed to differ
+        tol = 1e-7 + 2.0 * eps_total * (len(a.gates) + len(b0.gates) + 4)
+        if eps_total == 0:
+            worst = max(worst, d)
+        if d > tol:
+            ctx.witness("transpile-bind:" + "+".join(chosen), f"bind∘T̂ and T∘bind differ by {d:.3g} up to phase "
+                        f"(documented epsilon of the transpilers: {eps_total:.3g} in total)", dict(hist, values=vals))
+            continue
+        # the sharp form, gate by gate: T̂ leaves every parametric gate alone, so T applied to the bound gate on its own
+        # must reproduce that gate up to the documented epsilon (10·epsilon: a pipeline re-visits a rotation a few times)
+        tol1 = 1e-10 + 10.0 * eps_total
+        try:
+            bound_par = [bg for bg, (_, p_) in zip(b0.gates, c.primitive_circuit().gates_and_params) if p_ is not None]
+        except Exception:  # noqa: BLE001
+            bound_par = []
+        for bg in bound_par[:6]:
+            try:
+                one = QuantumCircuit(c.qubit_count, gates=[bg])
+                u1 = dense.circuit_unitary(c.qubit_count, one.gates)
+                u2 = dense.circuit_unitary(c.qubit_count, tn(one).gates)
+            except Exception:  # noqa: BLE001 — a validating transpiler may reject the lone gate
+                continue
+            d1 = op_dist(u1, u2)
+            if d1 > tol1:
+                ctx.witness("transpile-bind-epsilon:" + "+".join(chosen),
+                            f"the parametric gate bound to {bg.name}{list(bg.target_indices)}(angle {bg.params[0]!r}) is kept with exactly "
+                            f"that angle by bind∘T̂, but T∘bind turns it into {[(x.name, list(x.params)) for x in tn(one).gates]}: "
+                            f"operator distance {d1:.3g} up to phase, although the documented epsilon of the transpilers is "
+                            f"{eps_total:.3g} (angle window) — the two orders differ by more than the documented tolerance",
+                            dict(hist, values=vals))
+                break
     o = ctx.extra.setdefault("oracle", {})
     o["transpile_cases"] = n
     o["worst_phase_dist"] = worst
